@@ -610,10 +610,13 @@ def _acc_static_default(ctx, site, v):
     treats any ${ref} token as dynamic (PYXFORM_REF in its rule set)."""
     fi = site.fi
     gt = guard_texts(site.call, stop=fi.node)
-    dd = ctx.func("pyxform.utils:default_is_dynamic", "C03.R1")
-    sets = [x for x in ast.walk(dd.node) if isinstance(x, ast.Set)]
-    has_ref = any(const_str(ctx, dd.module, e) == (True, "PYXFORM_REF") for s in sets for e in s.elts)
-    ok = any("not default_is_dynamic(self.default, self.type)" in g for g in gt) and has_ref
+    # "counts every ${ref} token as dynamic" is decided by evaluating the classifier (C10's classifier rule): every
+    # evaluated default that contains a reference must be classed dynamic
+    from .c10 import _classifier_rule
+    cr = _classifier_rule(ctx, "C03", "C03.R7")
+    ref_obs = [o for o in cr.obligations if "${" in o["construct"] and "${not_a_ref" not in o["construct"]]
+    has_ref = bool(ref_obs) and all(o["verdict"] != "FAILED" for o in ref_obs)
+    ok = any("not default_is_dynamic(" in g for g in gt) and has_ref
     return ok, "static default is written only when default_is_dynamic() is false, and that classifier counts every ${ref} token as dynamic"
 
 
